@@ -119,3 +119,17 @@ CASES += [
     dict(id='c08-eq-flag-and-not', prop='C08', file=GC, expect=None,
          old="      mHandlerFlags -= Handler::hfListArgGroups;", new="      mHandlerFlags &= ~Handler::hfListArgGroups;"),
 ]
+
+TA = 'src/celma/prog_args/detail/typed_arg.hpp'
+TB = 'src/library/prog_args/detail/typed_arg_base.cpp'
+CASES += [
+    dict(id='c03-list-count-unguarded', prop='C03', file=TA, expect='R5',
+         old="      if ((it.currentNum() > 0) && !mIgnoreCardinality\n          && (mpCardinality.get() != nullptr))", new="      if ((it.currentNum() > 0)\n          && (mpCardinality.get() != nullptr))"),
+    dict(id='c03-list-count-inverted', prop='C03', file=TA, expect='R5', count=3,
+         old="if (mpCardinality && !mIgnoreCardinality && (it != tok.begin()))", new="if (mpCardinality && mIgnoreCardinality && (it != tok.begin()))"),
+    dict(id='c03-carrier-not-set', prop='C03', file=TB, expect='R5',
+         old="   mIgnoreCardinality = ignore_cardinality;\n", new=""),
+    dict(id='c03-eq-carrier-if-form', prop='C03', file=TA, expect=None,
+         old="      if ((it.currentNum() > 0) && !mIgnoreCardinality\n          && (mpCardinality.get() != nullptr))\n         mpCardinality->gotValue();",
+         new="      if (!mIgnoreCardinality)\n      {\n         if ((it.currentNum() > 0) && (mpCardinality.get() != nullptr))\n            mpCardinality->gotValue();\n      } // end if"),
+]
